@@ -66,7 +66,18 @@ func runC11(r *mc.Run) {
 		w.Plat.CPUSVN = svnVecs[sv]
 		w.Plat.PCESVN = pceSvns[pc]
 		w.Plat.FMSPC = fmspcs[fm]
-		if sv != 0 || pc != 0 || fm != 0 {
+		ids := c.Choose("identifier-contents", 3)
+		switch ids {
+		case 1: // identifiers whose leading bytes read as a DER header of exactly the remaining length
+			w.Plat.PPID = append([]byte{0x04, 0x0e}, world.Fill("c11-ppid", 14)...)
+			w.Plat.PCEID = []byte{0x04, 0x00}
+			w.Plat.FMSPC = []byte{0x04, 0x04, 0xa1, 0xb2, 0xc3, 0xd4}
+		case 2: // ... of a SEQUENCE / INTEGER
+			w.Plat.PPID = append([]byte{0x30, 0x0e}, world.Fill("c11-ppid2", 14)...)
+			w.Plat.PCEID = []byte{0x02, 0x00}
+			w.Plat.FMSPC = []byte{0x02, 0x04, 0x7f, 0x00, 0x00, 0x01}
+		}
+		if sv != 0 || pc != 0 || fm != 0 || ids != 0 {
 			w.PKI = T.WithLeaf(w.Plat)
 		}
 		sp := world.QuoteSpec{PKI: w.PKI, Auth: world.Fill("c11-auth", authLens[al]), Extra: world.Fill("c11-extra", extraLens[el]), NulAfter: nul == 1,
@@ -129,7 +140,18 @@ func runC11(r *mc.Run) {
 			l.Tcb.Tdx = nm
 			before = append(before, l)
 		}
-		ti.TcbLevels = append(before, match, world.Level{Tcb: world.Tcb{Sgx: world.CompsOf(make([]byte, 16)), Pcesvn: world.IntP(0), Tdx: world.CompsOf(make([]byte, 16))}, TcbDate: "2020-01-01T00:00:00Z", TcbStatus: "OutOfDate"})
+		lastDate := "2020-01-01T00:00:00Z"
+		if dm := c.Choose("level-dates", 3); dm != 0 {
+			if dm == 1 {
+				lastDate = "2026-01-01T00:00:00Z" // the always-matching OutOfDate level listed last is the newest
+			}
+			// dates that run against the listed order (or with it): the first matching level decides
+			for i := range before {
+				before[i].TcbDate = fmt.Sprintf("20%02d-03-01T00:00:00Z", map[int]int{1: 20 + i, 2: 35 - i}[dm])
+			}
+			match.TcbDate = fmt.Sprintf("20%02d-03-01T00:00:00Z", map[int]int{1: 24, 2: 30}[dm])
+		}
+		ti.TcbLevels = append(before, match, world.Level{Tcb: world.Tcb{Sgx: world.CompsOf(make([]byte, 16)), Pcesvn: world.IntP(0), Tdx: world.CompsOf(make([]byte, 16))}, TcbDate: lastDate, TcbStatus: "OutOfDate"})
 		if tee[1] != 0 {
 			ti.TdxModuleIdentities = []world.ModuleIdentity{
 				{ID: "TDX_01", Mrsigner: strings.Repeat("00", 48), Attributes: "0000000000000000", AttributesMask: "FFFFFFFFFFFFFFFF",
